@@ -11,6 +11,7 @@ the Python type of every numeric item (a float is an oracle failure).
 -/
 import QuantityModel.Proofs.Term
 import QuantityModel.Proofs.TermNormal
+import QuantityModel.Proofs.TermSem
 import QuantityModel.Proofs.Scale
 namespace QM.Props.C07
 open QM
@@ -172,6 +173,38 @@ theorem normal_form_reachable (s : RegState) (h : ReachableWF s) (t : Items) :
   normalizedItems_shape _ (keys_nonneg_registry s)
     (defsBaseOnly_of_scaleInv s (reachableWF_scaleInv h)) t
 
+/-- **Equal exactly when they denote the same thing.**  `numVal (expanded t)`
+is the rational factor of `t` and `expOf a (expanded t)` the exponent of the
+base element `a` after every derived element has been replaced by its
+definition.  Two constructed terms compare equal iff these agree — provided
+distinct base elements are not convertible into each other and no two
+distinct base elements occurring in the two terms share a sort key.  The second proviso is exactly what known finding D5 violates (two
+units of a type without reference unit share their type's key); where it
+holds the statement is an equivalence, not only `eq_sound`. -/
+theorem eq_iff_same_factor_and_exponents (hk : KeysNonneg env) (hdb : DefsBaseOnly env)
+    (hnc : BaseNoConv env) (t₁ t₂ : Items) (hinj : KeysSeparate env t₁ t₂)
+    (h₁ : Clean t₁) (h₂ : Clean t₂) :
+    termEq env t₁ t₂ = true ↔
+      (numVal (expanded env t₁) = numVal (expanded env t₂) ∧
+       ∀ a, expOf a (expanded env t₁) = expOf a (expanded env t₂)) :=
+  termEq_iff env hk hdb hnc t₁ t₂ hinj h₁ h₂
+
+/-- the same for normal forms of arbitrary item lists -/
+theorem normal_forms_equal_iff (hk : KeysNonneg env) (hdb : DefsBaseOnly env)
+    (hnc : BaseNoConv env) (t₁ t₂ : Items) (hinj : KeysSeparate env t₁ t₂) :
+    normalizedItems env t₁ = normalizedItems env t₂ ↔
+      (numVal (expanded env t₁) = numVal (expanded env t₂) ∧
+       ∀ a, expOf a (expanded env t₁) = expOf a (expanded env t₂)) :=
+  normalizedItems_eq_iff env hk hdb hnc t₁ t₂ hinj
+
+/-- Reduction (either `keep_item_order` mode) changes neither the factor nor
+any exponent of a list of pairwise non-convertible elements. -/
+theorem reduce_preserves_factor_and_exponents (hnc : BaseNoConv env) (items : Items)
+    (hb : BaseOnly env items) (keep : Bool) :
+    numVal (reduceGeneral env items keep) = numVal items ∧
+    ∀ a, expOf a (reduceGeneral env items keep) = expOf a items :=
+  sem_reduceGeneral env (fun a => (env.info a).isBase = true) hnc items hb keep
+
 /-! ### Known finding D5 (kept visible): completeness of equality fails for
 non-convertible elements sharing a sort key.  The *full* statement
 "terms are equal exactly when they denote the same value" is false of the code;
@@ -198,6 +231,59 @@ def exEnv : Env := { atoms := [
   { key := 3, group := 2, scale := some 1, isBase := true, normDef := [] },                -- s
   { key := 7, group := 3, scale := some 1, isBase := false,
     normDef := [(.atom 0, 1), (.atom 2, -1)] }] }                                           -- m/s
+
+/-- the hypotheses of the equivalence are met by this environment ... -/
+theorem exEnv_hypotheses : KeysNonneg exEnv ∧ DefsBaseOnly exEnv ∧ BaseNoConv exEnv := by
+  have info : ∀ a, 4 ≤ a → exEnv.info a =
+      { key := 1, group := 0, scale := none, isBase := true, normDef := [] } := by
+    intro a ha
+    unfold Env.info exEnv
+    simp only [List.getD_eq_getElem?_getD]
+    rw [List.getElem?_eq_none (by simpa using ha)]; rfl
+  refine ⟨?_, ?_, ?_⟩
+  · intro a
+    unfold keyOf
+    rcases a with _ | _ | _ | _ | a
+    · decide
+    · decide
+    · decide
+    · decide
+    · rw [info (a + 4) (by omega)]; decide
+  · intro a hb c hc
+    rcases a with _ | _ | _ | _ | a
+    · simp [exEnv, Env.info] at hb
+    · simp only [exEnv, Env.info, List.getD_cons_succ, List.getD_cons_zero, atomsOf,
+        List.filterMap_cons, List.filterMap_nil, List.mem_singleton] at hc
+      subst hc; rfl
+    · simp [exEnv, Env.info] at hb
+    · simp only [exEnv, Env.info, List.getD_cons_succ, List.getD_cons_zero, atomsOf,
+        List.filterMap_cons, List.filterMap_nil, List.mem_cons, List.not_mem_nil, or_false] at hc
+      rcases hc with rfl | rfl <;> rfl
+    · rw [info (a + 4) (by omega)] at hb; simp at hb
+  · intro x y hx hy hne
+    unfold getFactor
+    rcases x with _ | _ | _ | _ | x <;> rcases y with _ | _ | _ | _ | y <;>
+      first
+        | (exfalso; exact hne rfl)
+        | (simp [exEnv, Env.info] at hx; done)
+        | (simp [exEnv, Env.info] at hy; done)
+        | (simp [exEnv, Env.info])
+
+/-- ... and by these two terms (km/h-like and m/s-like: elements 0 = m, 2 = s
+with keys 2 and 3), which are equal as the theorem says -/
+example : KeysSeparate exEnv [(.atom 1, 1), (.atom 2, -1)] [(.num 1000, 1), (.atom 3, 1)] := by
+  have hl : atomsOf (iterNormalized exEnv normFuel [(.atom 1, 1), (.atom 2, -1)]) ++
+      atomsOf (iterNormalized exEnv normFuel [(.num 1000, 1), (.atom 3, 1)]) = [0, 2, 0, 2] := by
+    decide +kernel
+  intro x hx y hy hk
+  rw [hl] at hx hy
+  simp only [List.mem_cons, List.not_mem_nil, or_false] at hx hy
+  have k0 : keyOf exEnv 0 = 2 := by decide +kernel
+  have k2 : keyOf exEnv 2 = 3 := by decide +kernel
+  rcases hx with rfl | rfl | rfl | rfl <;> rcases hy with rfl | rfl | rfl | rfl <;>
+    first | rfl | (rw [k0, k2] at hk; omega)
+example : termEq exEnv [(.atom 1, 1), (.atom 2, -1)] [(.num 1000, 1), (.atom 3, 1)] = true := by
+  decide +kernel
 
 example : reduceItems exEnv [(.atom 1, 2), (.num 3, 1), (.atom 0, -1), (.atom 2, 0)] none true
     = [(.num 3000, 1), (.atom 1, 1)] := by decide +kernel
